@@ -749,6 +749,9 @@ outer:
 				continue outer
 			}
 		}
+		if verifhook.Skip(mgr, "tag.pick", n) {
+			continue
+		}
 		tagDetails := make(map[string]query.TagDetails)
 		for _, tn := range t.referencedTags() {
 			tagDetails[tn] = mgr.tags[tn].TagDetails
